@@ -1,6 +1,6 @@
 (* C16 property theorems: statements only, each closed by [exact]. *)
 From Boltons Require Import Lib.Prelude Lib.C16_Text Spec.C16_Spec Model.C16_Model Gen.C16_Gen
-  Proofs.C16_Format Proofs.C16_Main.
+  Check.C16_Check Proofs.C16_Format Proofs.C16_Main Proofs.C16_Sound.
 Open Scope N_scope.
 
 (* CPython's character classes, regenerated from the interpreter on every run, satisfy
@@ -109,6 +109,24 @@ Print Assumptions C16_format_reparse.
 Theorem C16_lineno_always_ok : forall C, cc_ok C -> forall n, lineno_ok C (dec n) = true.
 Proof. exact dec_lineno_ok. Qed.
 Print Assumptions C16_lineno_always_ok.
+
+(* ---- the checker's predicate is the theorem: on EVERY input outside the recorded guards the
+   model's own observation is judged (agree, holds, known) = (true, true, false) by the very
+   function the correspondence run evaluates on the implementation's observation; hence
+   [agree] on a case transfers [holds] from the model to the code on that case ------------------------ *)
+Theorem C16_check_sound_roundtrip : forall T ms,
+  long_repeat (t_frames T) = false -> length ms = length (t_frames T) ->
+  rt_verdict T ms (marked_text T ms)
+             (fst (model_parse_print (marked_text T ms))) (snd (model_parse_print (marked_text T ms)))
+  = (true, true, false).
+Proof. exact rt_sound. Qed.
+Print Assumptions C16_check_sound_roundtrip.
+
+Theorem C16_check_sound_live : forall fs e,
+  long_repeat (map (std_frame P) fs) = false -> plain_exc e = true ->
+  ei_verdict fs e (std_text (std_tb P fs e)) (model_ei fs e) = (true, true, false).
+Proof. exact ei_sound. Qed.
+Print Assumptions C16_check_sound_live.
 
 (* ---- the hypotheses are inhabited by non-trivial states ------------------------------------------------ *)
 Example wf_inhabited :
